@@ -461,6 +461,9 @@ pub struct Case {
     pub skip_compare: bool,
     /// Block's error return is an accepted outcome (hostile-input cases).
     pub err_ok: bool,
+    /// The block delivers (part of) its result when it is dropped: drop it at
+    /// the end of a run and collect the outputs once more before comparing.
+    pub finish_by_drop: bool,
 }
 
 impl Case {
@@ -477,6 +480,16 @@ impl Case {
             infinite: false,
             skip_compare: false,
             err_ok: false,
+            finish_by_drop: false,
+        }
+    }
+    /// See `finish_by_drop`.
+    pub fn finish(&mut self) {
+        if self.finish_by_drop {
+            drop(self.block.take());
+            for o in self.outs.iter_mut() {
+                o.drain(usize::MAX);
+            }
         }
     }
     pub fn out_typed<T: Bits>(&self, i: usize) -> &StreamOut<T> {
